@@ -3,6 +3,21 @@
 // ================================================================================================
 //@props C16
 
+impl Operation {
+//@extract src/operation.rs :: impl Operation :: fn get_uuid
+    pub fn get_uuid(&self) -> (r: Option<Uuid>)
+        ensures r == op_uuid(*self)
+{
+        match self {
+            Operation::Create { uuid: u } => Some(*u),
+            Operation::Delete { uuid: u, .. } => Some(*u),
+            Operation::Update { uuid: u, .. } => Some(*u),
+            Operation::UndoPoint => None,
+        }
+    }
+//@end
+}
+
 //@extract src/storage/inmemory.rs :: struct Data
 pub struct Data {
     pub tasks: HashMap<Uuid, TaskMap>,
@@ -33,6 +48,146 @@ pub proof fn lemma_unsynced_push(ops: Seq<(bool, Operation)>, synced: bool, op: 
 {
     assert(ops.push((synced, op)).drop_last() =~= ops);
 }
+pub open spec fn same_elems<A>(r: Seq<&A>, o: Seq<A>) -> bool { r.len() == o.len() && forall|i: int| 0 <= i < r.len() ==> *(#[trigger] r[i]) == o[i] }
+/// the operations themselves, flags dropped
+pub open spec fn all_ops(ops: Seq<(bool, Operation)>) -> Seq<Operation>
+    decreases ops.len()
+{
+    if ops.len() == 0 { Seq::empty() } else { all_ops(ops.drop_last()).push(ops.last().1) }
+}
+/// synced operations come before unsynced ones (operations are added unsynced at the end; sync_complete marks all of them)
+pub open spec fn synced_first(ops: Seq<(bool, Operation)>) -> bool {
+    forall|i: int, j: int| 0 <= i < j < ops.len() && (#[trigger] ops[j]).0 ==> (#[trigger] ops[i]).0
+}
+pub open spec fn mark_synced(s: Seq<Operation>) -> Seq<(bool, Operation)> { Seq::new(s.len(), |i: int| (true, s[i])) }
+pub proof fn lemma_take_step<A>(s: Seq<A>, i: int)
+    requires 0 <= i < s.len()
+    ensures s.take(i + 1).drop_last() == s.take(i), s.take(i + 1).last() == s[i], s.take(i + 1).len() == i + 1
+{
+    assert(s.take(i + 1).drop_last() =~= s.take(i));
+}
+pub proof fn lemma_all_ops_take(ops: Seq<(bool, Operation)>, i: int)
+    requires 0 <= i < ops.len()
+    ensures all_ops(ops.take(i + 1)) == all_ops(ops.take(i)).push(ops[i].1),
+        all_ops(ops.take(i + 1)).drop_last() == all_ops(ops.take(i)), all_ops(ops.take(i + 1)).last() == ops[i].1,
+{
+    lemma_take_step(ops, i);
+    assert(all_ops(ops.take(i)).push(ops[i].1).drop_last() =~= all_ops(ops.take(i)));
+}
+pub proof fn lemma_all_synced(ops: Seq<(bool, Operation)>)
+    requires forall|i: int| 0 <= i < ops.len() ==> (#[trigger] ops[i]).0
+    ensures unsynced_of(ops) == Seq::<Operation>::empty(), synced_of(ops) == all_ops(ops)
+    decreases ops.len()
+{
+    if ops.len() > 0 {
+        assert forall|i: int| 0 <= i < ops.drop_last().len() implies (#[trigger] ops.drop_last()[i]).0 by { assert(ops[i].0); }
+        lemma_all_synced(ops.drop_last());
+        assert(ops.last() == ops[ops.len() - 1]);
+    }
+}
+/// with the synced operations first, the two halves of the view concatenate to the stored list
+pub proof fn lemma_synced_first_split(ops: Seq<(bool, Operation)>)
+    requires synced_first(ops)
+    ensures synced_of(ops) + unsynced_of(ops) == all_ops(ops)
+    decreases ops.len()
+{
+    if ops.len() > 0 {
+        let p = ops.drop_last();
+        assert forall|i: int, j: int| 0 <= i < j < p.len() && (#[trigger] p[j]).0 implies (#[trigger] p[i]).0 by { assert(ops[j].0); assert(ops[i].0); }
+        lemma_synced_first_split(p);
+        if ops.last().0 {
+            assert forall|i: int| 0 <= i < p.len() implies (#[trigger] p[i]).0 by { assert(ops[ops.len() - 1].0); assert(ops[i].0); }
+            lemma_all_synced(p);
+            assert(synced_of(ops) + unsynced_of(ops) =~= all_ops(ops));
+        } else {
+            assert(synced_of(ops) + unsynced_of(ops) =~= all_ops(ops));
+        }
+    } else {
+        assert(synced_of(ops) + unsynced_of(ops) =~= all_ops(ops));
+    }
+}
+pub proof fn lemma_mark_synced_push(s: Seq<Operation>, op: Operation)
+    ensures mark_synced(s.push(op)) == mark_synced(s).push((true, op))
+{
+    assert(mark_synced(s.push(op)) =~= mark_synced(s).push((true, op)));
+}
+pub proof fn lemma_mark_synced(s: Seq<Operation>)
+    ensures synced_first(mark_synced(s)), unsynced_of(mark_synced(s)) == Seq::<Operation>::empty(), synced_of(mark_synced(s)) == s
+    decreases s.len()
+{
+    let m = mark_synced(s);
+    lemma_all_synced(m);
+    lemma_all_ops_marked(s);
+}
+pub proof fn lemma_all_ops_marked(s: Seq<Operation>)
+    ensures all_ops(mark_synced(s)) == s
+    decreases s.len()
+{
+    if s.len() > 0 {
+        assert(mark_synced(s).drop_last() =~= mark_synced(s.drop_last()));
+        lemma_all_ops_marked(s.drop_last());
+        assert(all_ops(mark_synced(s)) =~= s);
+    } else {
+        assert(all_ops(mark_synced(s)) =~= s);
+    }
+}
+/// the first n entries produced by HashMap::iter / keys have been copied to acc
+pub open spec fn pairs_upto(kv: Seq<(&Uuid, &TaskMap)>, m: Map<Uuid, TaskMap>, acc: Seq<(Uuid, TaskMap)>, n: int) -> bool {
+    &&& kv.no_duplicates() && acc.len() == n && n <= kv.len()
+    &&& forall|i: int| 0 <= i < kv.len() ==> m.dom().contains(*(#[trigger] kv[i]).0) && m[*kv[i].0] == *kv[i].1
+    &&& forall|u: Uuid| m.dom().contains(u) ==> exists|i: int| 0 <= i < kv.len() && *(#[trigger] kv[i]).0 == u
+    &&& forall|i: int| 0 <= i < acc.len() ==> (#[trigger] acc[i]).0 == *kv[i].0 && acc[i].1 == *kv[i].1
+}
+pub open spec fn keys_upto(ks: Seq<&Uuid>, m: Map<Uuid, TaskMap>, acc: Seq<Uuid>, n: int) -> bool {
+    &&& ks.no_duplicates() && ks.unref().to_set() =~= m.dom() && 0 <= n <= ks.len() && acc.len() == n
+    &&& forall|i: int| 0 <= i < acc.len() ==> (#[trigger] acc[i]) == *ks[i]
+}
+/// HashMap::iter lists every entry once
+pub proof fn lemma_pairs_listed(kv: Seq<(&Uuid, &TaskMap)>, m: Map<Uuid, TaskMap>, acc: Seq<(Uuid, TaskMap)>, tasks: State)
+    requires pairs_upto(kv, m, acc, kv.len() as int),
+        tasks == Map::new(m.dom(), |u: Uuid| m[u]@),
+    ensures tasks_listed(acc, tasks), (acc.len() == 0) == (tasks.dom() =~= Set::<Uuid>::empty()),
+{
+    assert forall|i: int| 0 <= i < acc.len() implies tasks.dom().contains(#[trigger] acc[i].0) && acc[i].1@ == tasks[acc[i].0] by {
+        assert(m.dom().contains(*kv[i].0));
+    }
+    assert forall|u: Uuid| tasks.dom().contains(u) implies exists|i: int| 0 <= i < acc.len() && #[trigger] acc[i].0 == u by {
+        let i = choose|i: int| 0 <= i < kv.len() && *(#[trigger] kv[i]).0 == u;
+        assert(acc[i].0 == u);
+    }
+    assert forall|i: int, j: int| 0 <= i < j < acc.len() implies (#[trigger] acc[i].0) != (#[trigger] acc[j].0) by {
+        if acc[i].0 == acc[j].0 {
+            assert(m[*kv[i].0] == *kv[i].1); assert(m[*kv[j].0] == *kv[j].1);
+            assert(kv[i] == kv[j]);
+        }
+    }
+    if acc.len() == 0 {
+        assert forall|u: Uuid| !tasks.dom().contains(u) by {
+            if tasks.dom().contains(u) { let i = choose|i: int| 0 <= i < acc.len() && #[trigger] acc[i].0 == u; }
+        }
+        assert(tasks.dom() =~= Set::<Uuid>::empty());
+    } else {
+        assert(tasks.dom().contains(acc[0].0));
+    }
+}
+pub proof fn lemma_keys_listed(ks: Seq<&Uuid>, m: Map<Uuid, TaskMap>, acc: Seq<Uuid>, tasks: State)
+    requires keys_upto(ks, m, acc, ks.len() as int),
+        tasks == Map::new(m.dom(), |u: Uuid| m[u]@),
+    ensures uuids_listed(acc, tasks)
+{
+    let un = ks.unref();
+    assert(un.len() == ks.len());
+    assert forall|i: int| 0 <= i < ks.len() implies #[trigger] un[i] == *ks[i] by {}
+    assert forall|i: int| 0 <= i < acc.len() implies tasks.dom().contains(#[trigger] acc[i]) by { assert(un.to_set().contains(un[i])); }
+    assert forall|u: Uuid| tasks.dom().contains(u) implies exists|i: int| 0 <= i < acc.len() && #[trigger] acc[i] == u by {
+        assert(un.to_set().contains(u));
+        let i = choose|i: int| 0 <= i < un.len() && un[i] == u;
+        assert(acc[i] == u);
+    }
+    assert forall|i: int, j: int| 0 <= i < j < acc.len() implies (#[trigger] acc[i]) != (#[trigger] acc[j]) by {
+        if acc[i] == acc[j] { assert(ks[i] == ks[j]); }
+    }
+}
 impl Data {
     /// the abstract content of the in-memory data
     pub open spec fn view_of(&self) -> TxnView {
@@ -44,7 +199,7 @@ impl Data {
             ws: self.working_set@,
         }
     }
-    pub open spec fn wf(&self) -> bool { ws_wf(self.working_set@) }
+    pub open spec fn wf(&self) -> bool { ws_wf(self.working_set@) && synced_first(self.operations@) }
 }
 
 //@extract src/storage/inmemory.rs :: struct InMemoryStorage
@@ -265,42 +420,179 @@ impl StorageTxn for Txn<'_> {
     }
 //@end
 
-    // ---- methods outside the verifier's language subset (iterator chains with pattern closures): NOT verified;
-    // ---- stand-ins assumed to satisfy the trait contract, listed in the evidence as out_of_reach
+//@extract src/storage/inmemory.rs :: impl StorageTxn for Txn<'_> :: fn all_tasks
+    fn all_tasks(&mut self) -> (r: Result<Vec<(Uuid, TaskMap)>>)
+{
+        let ghost m0 = old(self).cur().tasks@;
+        Ok({
+            let mut it1_acc = Vec::new();
+            for it1_x in it_it1_x: self.data_ref().tasks.iter()
+                invariant
+                    m0 == old(self).cur().tasks@,
+                    pairs_upto(it_it1_x.seq(), m0, it1_acc@, it_it1_x.index() as int),
+            {
+                let (u, t) = it1_x;
+                let it1_y1 = (*u, t.clone());
+                it1_acc.push(it1_y1);
+            }
+            proof {
+                assert(exists|kv: Seq<(&Uuid, &TaskMap)>| #[trigger] pairs_upto(kv, m0, it1_acc@, kv.len() as int));
+                let kv = choose|kv: Seq<(&Uuid, &TaskMap)>| #[trigger] pairs_upto(kv, m0, it1_acc@, kv.len() as int);
+                lemma_pairs_listed(kv, m0, it1_acc@, old(self).st().tasks);
+            }
+            it1_acc
+        })
+    }
+//@end
+
+//@extract src/storage/inmemory.rs :: impl StorageTxn for Txn<'_> :: fn all_task_uuids
+    fn all_task_uuids(&mut self) -> (r: Result<Vec<Uuid>>)
+{
+        let ghost m0 = old(self).cur().tasks@;
+        Ok({
+            let mut it1_acc = Vec::new();
+            for it1_x in it_it1_x: self.data_ref().tasks.keys()
+                invariant
+                    m0 == old(self).cur().tasks@,
+                    keys_upto(it_it1_x.seq(), m0, it1_acc@, it_it1_x.index() as int),
+            {
+                let it1_y1 = *it1_x;
+                it1_acc.push(it1_y1);
+            }
+            proof {
+                assert(exists|ks: Seq<&Uuid>| #[trigger] keys_upto(ks, m0, it1_acc@, ks.len() as int));
+                let ks = choose|ks: Seq<&Uuid>| #[trigger] keys_upto(ks, m0, it1_acc@, ks.len() as int);
+                lemma_keys_listed(ks, m0, it1_acc@, old(self).st().tasks);
+            }
+            it1_acc
+        })
+    }
+//@end
+
+//@extract src/storage/inmemory.rs :: impl StorageTxn for Txn<'_> :: fn get_task_operations
+    fn get_task_operations(&mut self, uuid: Uuid) -> (r: Result<Vec<Operation>>)
+{
+        let ghost o0 = old(self).cur().operations@;
+        Ok({
+            let mut it1_acc = Vec::new();
+            for it1_x in it_it1_x: self.data_ref().operations.iter()
+                invariant
+                    o0 == old(self).cur().operations@, same_elems(it_it1_x.seq(), o0),
+                    it1_acc@ == ops_for(all_ops(o0.take(it_it1_x.index() as int)), uuid),
+            {
+                proof { lemma_all_ops_take(o0, it_it1_x.index() as int); }
+                let (_, op) = &it1_x;
+                let it1_c0 = op.get_uuid() == Some(uuid);
+                if it1_c0 {
+                    let (_, op) = it1_x;
+                    let it1_y1 = op.clone();
+                    it1_acc.push(it1_y1);
+                }
+            }
+            proof { assert(o0.take(o0.len() as int) =~= o0); lemma_synced_first_split(o0); }
+            it1_acc
+        })
+    }
+//@end
+
+//@extract src/storage/inmemory.rs :: impl StorageTxn for Txn<'_> :: fn unsynced_operations
+    fn unsynced_operations(&mut self) -> (r: Result<Vec<Operation>>)
+{
+        let ghost o0 = old(self).cur().operations@;
+        Ok({
+            let mut it1_acc = Vec::new();
+            for it1_x in it_it1_x: self.data_ref().operations.iter()
+                invariant
+                    o0 == old(self).cur().operations@, same_elems(it_it1_x.seq(), o0),
+                    it1_acc@ == unsynced_of(o0.take(it_it1_x.index() as int)),
+            {
+                proof { lemma_take_step(o0, it_it1_x.index() as int); }
+                let (synced, _) = &it1_x;
+                let it1_c0 = !synced;
+                if it1_c0 {
+                    let (_, op) = it1_x;
+                    let it1_y1 = op.clone();
+                    it1_acc.push(it1_y1);
+                }
+            }
+            proof { assert(o0.take(o0.len() as int) =~= o0); }
+            it1_acc
+        })
+    }
+//@end
+
+//@extract src/storage/inmemory.rs :: impl StorageTxn for Txn<'_> :: fn num_unsynced_operations
+    fn num_unsynced_operations(&mut self) -> (r: Result<usize>)
+{
+        let ghost o0 = old(self).cur().operations@;
+        proof { assert(o0.len() == old(self).cur().operations.len()); }
+        Ok({
+            let mut it1_acc: usize = 0;
+            for it1_x in it_it1_x: self.data_ref().operations.iter()
+                invariant
+                    o0 == old(self).cur().operations@, same_elems(it_it1_x.seq(), o0),
+                    it1_acc == unsynced_of(o0.take(it_it1_x.index() as int)).len(), it1_acc <= it_it1_x.index(), o0.len() <= usize::MAX,
+            {
+                proof { lemma_take_step(o0, it_it1_x.index() as int); }
+                let (synced, _) = &it1_x;
+                let it1_c0 = !synced;
+                if it1_c0 {
+                    it1_acc += 1;
+                }
+            }
+            proof { assert(o0.take(o0.len() as int) =~= o0); }
+            it1_acc
+        })
+    }
+//@end
+
+//@extract src/storage/inmemory.rs :: impl StorageTxn for Txn<'_> :: fn sync_complete
+    fn sync_complete(&mut self) -> (r: Result<()>)
+{
+        let ghost o0 = old(self).cur().operations@;
+        let ghost s0 = old(self).st();
+        let data = self.data_ref();
+        let new_operations = {
+            let mut it1_acc = Vec::new();
+            for it1_x in it_it1_x: data.operations.iter()
+                invariant
+                    *data == old(self).cur(), o0 == old(self).cur().operations@, same_elems(it_it1_x.seq(), o0), s0 == old(self).st(),
+                    it1_acc@ == mark_synced(live_ops(all_ops(o0.take(it_it1_x.index() as int)), s0.tasks)),
+            {
+                proof { lemma_all_ops_take(o0, it_it1_x.index() as int); }
+                let (_, op) = &it1_x;
+                let it1_c0 = {
+                    if let Some(uuid) = op.get_uuid() {
+                        data.tasks.contains_key(&uuid)
+                    } else {
+                        true
+                    }
+                };
+                if it1_c0 {
+                    let (_, op) = it1_x;
+                    let it1_y1 = (true, op.clone());
+                    proof { lemma_mark_synced_push(live_ops(all_ops(o0.take(it_it1_x.index() as int)), s0.tasks), *op); }
+                    it1_acc.push(it1_y1);
+                }
+            }
+            it1_acc
+        };
+        proof {
+            assert(o0.take(o0.len() as int) =~= o0);
+            lemma_synced_first_split(o0);
+            lemma_mark_synced(live_ops(all_ops(o0), s0.tasks));
+        }
+        self.mut_data_ref().operations = new_operations;
+        Ok(())
+    }
+//@end
+
+    // ---- outside the verifier's language subset (nested closures over `self` inside Option::map(..).flatten()): NOT verified;
+    // ---- the stand-in is assumed to satisfy the trait contract, listed in the evidence as out_of_reach
 
 //@watch C16 :: src/storage/inmemory.rs :: impl StorageTxn for Txn<'_> :: fn get_pending_tasks
     #[verifier::external_body]
     fn get_pending_tasks(&mut self) -> (r: Result<Vec<(Uuid, TaskMap)>>)
-    { unimplemented!() }
-
-//@watch C16 :: src/storage/inmemory.rs :: impl StorageTxn for Txn<'_> :: fn all_tasks
-    #[verifier::external_body]
-    fn all_tasks(&mut self) -> (r: Result<Vec<(Uuid, TaskMap)>>)
-    { unimplemented!() }
-
-//@watch C16 :: src/storage/inmemory.rs :: impl StorageTxn for Txn<'_> :: fn all_task_uuids
-    #[verifier::external_body]
-    fn all_task_uuids(&mut self) -> (r: Result<Vec<Uuid>>)
-    { unimplemented!() }
-
-//@watch C16 :: src/storage/inmemory.rs :: impl StorageTxn for Txn<'_> :: fn get_task_operations
-    #[verifier::external_body]
-    fn get_task_operations(&mut self, uuid: Uuid) -> (r: Result<Vec<Operation>>)
-    { unimplemented!() }
-
-//@watch C16 :: src/storage/inmemory.rs :: impl StorageTxn for Txn<'_> :: fn unsynced_operations
-    #[verifier::external_body]
-    fn unsynced_operations(&mut self) -> (r: Result<Vec<Operation>>)
-    { unimplemented!() }
-
-//@watch C16 :: src/storage/inmemory.rs :: impl StorageTxn for Txn<'_> :: fn num_unsynced_operations
-    #[verifier::external_body]
-    fn num_unsynced_operations(&mut self) -> (r: Result<usize>)
-    { unimplemented!() }
-
-//@watch C16 :: src/storage/inmemory.rs :: impl StorageTxn for Txn<'_> :: fn sync_complete
-    #[verifier::external_body]
-    fn sync_complete(&mut self) -> (r: Result<()>)
     { unimplemented!() }
 
 }
